@@ -8,6 +8,22 @@ Record drq := mkD {
   d_sig : Z; d_mode : bool
 }.
 
+(* a request as the user gave it: raw include list (unknown names = negative ids) and hop types; the list is cleaned
+   by the model of correct_json_route_list, not by what gnpy made of it *)
+Record draw := mkRaw {
+  w_id : Z; w_src : Z; w_dst : Z; w_nodes : list Z; w_strict : list bool; w_sig : Z; w_mode : bool
+}.
+Definition clean_drq (n : net) (r : draw) : drq :=
+  match clean_route n (w_src r) (w_dst r) (w_nodes r) (w_strict r) with
+  | Ok (inc, st) => mkD (w_id r) (w_src r) (w_dst r) inc (existsb (fun b => b) st) (w_sig r) (w_mode r)
+  | Err _ => mkD (w_id r) (w_src r) (w_dst r) [] false (w_sig r) (w_mode r)
+  end.
+Definition clean_s (n : net) (r : draw) : string :=
+  match clean_route n (w_src r) (w_dst r) (w_nodes r) (w_strict r) with
+  | Ok (inc, st) => append (zlist_s inc) (flags_s st)
+  | Err e => append "E:" e
+  end.
+
 Inductive dobs :=
 | DPaths (ps : list (rid * list Z))           (* final request id -> returned path *)
 | DError                                      (* DisjunctionError *)
@@ -27,9 +43,11 @@ Fixpoint serving (ps : list (rid * list Z)) (i : Z) : list Z :=
   match ps with [] => [] | (r, p) :: t => if memZ i r then p else serving t i end.
 
 Definition run_dis (g : graph) (kinds : string) (oms : list (list Z * option Z)) (cutoff : nat)
-           (judge_all : bool) (rqs : list drq) (declared : list grp)
+           (judge_all : bool) (raws : list draw) (declared : list grp)
            (obs_dedup : list Z) (obs_ids : list rid) (obs_groups : list grp) (obs : dobs) : string :=
   let n := mk_net g kinds oms in
+  let rqs := map (clean_drq n) raws in
+  let c_s := append "c=" (join ";" (map (clean_s n) raws)) in
   let dd := deduplicate declared in
   let ag := aggregate (map (fun r => mkA [d_id r] (d_sig r) (d_mode r)) rqs) dd in
   let decl_sets := map (fun d => concat (members d)) declared in
@@ -47,9 +65,10 @@ Definition run_dis (g : graph) (kinds : string) (oms : list (list Z * option Z))
         let by_final := map (fun rp : rid * list Z => (hd 0 (fst rp), snd rp)) ps in
         append "v=P," (join "," [bs (disjoint_ok n by_orig decl_sets);
                                  bs (disjoint_ok n by_final final_groups);
-                                 join "" (map (fun r => if memZ (d_id r) grouped
-                                                        then bs (route_ok g (d_src r) (d_dst r) (eff_inc r) (serving ps (d_id r)))
-                                                        else "-"%string) rqs)])
+                                 join "" (map (fun r => match serving ps (d_id r) with
+                                                        | [] => if memZ (d_id r) grouped then "F" else "-"
+                                                        | p => bs (route_ok g (d_src r) (d_dst r) (eff_inc r) p)
+                                                        end%string) rqs)])
     | DError =>
         match declared, rqs with
         | [d], _ =>
@@ -105,7 +124,7 @@ Definition run_dis (g : graph) (kinds : string) (oms : list (list Z * option Z))
         end
     | _ => "w=-"%string
     end in
-  join "|" [d_s; a_s; o_s; f_s; v_s; x_s; w_s].
+  join "|" [d_s; a_s; o_s; f_s; v_s; x_s; w_s; c_s].
 
 (* isdisjoint helper on raw integer lists *)
 Definition run_isdisjoint (cases : list (list Z * list Z)) : string :=
